@@ -266,7 +266,10 @@ impl Curve {
     }
 
     pub fn encode_point(&self, pt: &Pt, compressed: bool) -> Vec<u8> {
-        let (x, y) = pt.as_ref().expect("encode infinity");
+        let (x, y) = match pt.as_ref() {
+            Some(v) => v,
+            None => return vec![0u8], // infinity, as in SEC1
+        };
         let mut v = Vec::with_capacity(65);
         if compressed {
             v.push(if y.bit(0) { 0x03 } else { 0x02 });
